@@ -190,6 +190,8 @@ def replay(mod, prop, path):
     if case is None:
         print("replay file carries no single case (aggregate violation): %s" % rec.get("violation", {}).get("msg"))
         return 2
+    if hasattr(mod, "worker_init"):
+        mod.worker_init(rec.get("tier", "quick"))
     r = worker.run_one(mod, prop, case, rec.get("case_index", 0), rec.get("seed", 0))
     if r.get("harness_error"):
         print("INCONCLUSIVE property=%s reason=harness error: %s" % (prop, r["harness_error"][-800:]))
